@@ -771,6 +771,9 @@ namespace ip {
 			m_bytes_in_flight -= it->second;
 			m_outstanding_packet_sizes.erase(it);
 		}
+		// the drop notification is one-shot (whoever dropped the packet moved it
+		// out), re-arm it for the re-send
+		p.drop_fun = std::bind(&tcp::socket::packet_dropped, this, _1);
 		m_outgoing_packets.push_back(std::move(p));
 
 		const int packets_in_cwnd = m_cwnd / m_mss;
@@ -808,10 +811,14 @@ namespace ip {
 				assert(m_bytes_in_flight >= acked_bytes);
 				m_bytes_in_flight -= acked_bytes;
 
-				// potentially resend packets
-				while (!m_outgoing_packets.empty()
+				// potentially resend packets. Each packet is tried once per ACK: a
+				// hop may drop it again right away, which puts it back in
+				// m_outgoing_packets
+				for (std::size_t to_try = m_outgoing_packets.size();
+					to_try > 0 && !m_outgoing_packets.empty()
 					&& m_bytes_in_flight
-						+ int(m_outgoing_packets.front().buffer.size()) <= m_cwnd)
+						+ int(m_outgoing_packets.front().buffer.size()) <= m_cwnd;
+					--to_try)
 				{
 					aux::packet pkt = std::move(m_outgoing_packets.front());
 					m_outgoing_packets.erase(m_outgoing_packets.begin());
